@@ -1,3 +1,207 @@
-import GoStd.Bytes
+/-
+C04 — Requests inside an established dialog stick to the backend that answered.
+
+"Once a backend has answered an INVITE with a response carrying both dialog tags … every later
+request that belongs to that dialog and is addressed to the proxy's service … is delivered to that
+same backend and to no other, no matter how many unrelated requests have advanced the rotation in
+between. Requests that belong to no known dialog are load-balanced."
+
+Model: Proxy.Model — the pin list (`pinGet` / `pinAdd` / `pinDel`, DialogBasedBackend without time:
+expiry is C15's subject), `findBackendByDialog`, `sendToBackend`, and `handleDialog` for the moment
+the pin is created. Statements hold for every state (any rotation cursor, any pin list).
+-/
+import Lemmas.Relay
+import Lemmas.RelaySample
+open GoStd Sip Proxy Lemmas
+
 namespace Props.C04
+
+/-! ### the pin list is a map -/
+
+theorem C04_get_add_same (ps : List PinEntry) (k : Bytes) (b : BackendRef) (e : Int) :
+    pinGet (pinAdd ps k b e) k = some b := pinGet_pinAdd_same ps k b e
+
+theorem C04_get_add_other (ps : List PinEntry) (k k' : Bytes) (b : BackendRef) (e : Int) (hne : k' ≠ k) :
+    pinGet (pinAdd ps k' b e) k = pinGet ps k := pinGet_pinAdd_other ps k k' b e hne
+
+theorem C04_get_del_same (ps : List PinEntry) (k : Bytes) : pinGet (pinDel ps k) k = none :=
+  pinGet_pinDel_same ps k
+
+theorem C04_get_del_other (ps : List PinEntry) (k k' : Bytes) (hne : k' ≠ k) :
+    pinGet (pinDel ps k') k = pinGet ps k := pinGet_pinDel_other ps k k' hne
+
+/-! ### the pin is created by the backend's INVITE answer -/
+
+/-- A response from a registered backend (`peerAddr:peerPort ∈ st.backends`) whose method is INVITE
+and which carries a (non-empty) dialog identifier — both tags present — pins that dialog to that
+backend. -/
+theorem C04_pin_established (cfg : Cfg) (st : St) (peerAddr : Bytes) (peerPort : Int) (m m2 m3 : Message)
+    (method d : Bytes)
+    (hresp : isResponse m = true)
+    (hback : st.backends.contains (joinHostPort peerAddr peerPort) = true)
+    (hmeth : getMethod cfg.cm m = some (method, m2)) (hinv : method = str "INVITE")
+    (hdlg : getDialog cfg.cm m2 = (some d, m3)) (hne : d ≠ []) :
+    pinGet (handleDialog cfg st peerAddr peerPort m).1.pins d = some (.member (joinHostPort peerAddr peerPort)) := by
+  unfold handleDialog
+  simp only [hresp, Bool.not_true, Bool.false_eq_true, ↓reduceIte, hback, hmeth, hinv, beq_self_eq_true, hdlg]
+  have : d.isEmpty = false := by cases d <;> simp_all
+  simp only [this, Bool.false_eq_true, ↓reduceIte]
+  exact pinGet_pinAdd_same _ _ _ _
+
+/-! ### sticky delivery -/
+
+/-- A request of a dialog pinned to member `a` is handed to `a` and to nothing else, whatever the
+rotation looks like; the rotation is neither consulted nor advanced. -/
+theorem C04_sticky_step (cfg : Cfg) (st : St) (m m1 : Message) (br d a : Bytes) (t0 : Listener)
+    (hd : getDialog cfg.cm m = (some d, m1)) (hp : pinGet st.pins d = some (.member a))
+    (hreq : isRequest m = true) (h0 : cfg.transports0 = some t0) :
+    (sendToBackend cfg st m br).2 = [.backend a ((insertSelf cfg m1 t0 br).bytes cfg.cm)] ∧
+    (sendToBackend cfg st m br).1.rr = st.rr := by
+  obtain ⟨hf1, hf2⟩ := findBackendByDialog_request cfg st m hreq
+  rw [hd] at hf1 hf2
+  simp only [hp] at hf1
+  have hb : sbBackend cfg st m = .member a := by simp [sbBackend, hf1]
+  refine ⟨?_, ?_⟩
+  · rw [sendToBackend_out cfg st m br t0 h0, hb]
+    simp only [sbPick, sbMessage, hf2]
+  · rw [sendToBackend_rr cfg st m br t0 h0, hb]
+    rfl
+
+/-- … in particular the target does not depend on the rotation state at all. -/
+theorem C04_sticky_any_rotation (cfg : Cfg) (st : St) (rr' : Side.RR.St) (m m1 : Message) (br d a : Bytes)
+    (t0 : Listener)
+    (hd : getDialog cfg.cm m = (some d, m1)) (hp : pinGet st.pins d = some (.member a))
+    (hreq : isRequest m = true) (h0 : cfg.transports0 = some t0) :
+    (sendToBackend cfg { st with rr := rr' } m br).2 = (sendToBackend cfg st m br).2 := by
+  rw [(C04_sticky_step cfg st m m1 br d a t0 hd hp hreq h0).1,
+      (C04_sticky_step cfg { st with rr := rr' } m m1 br d a t0 hd hp hreq h0).1]
+
+/-- Requests that belong to no known dialog are load-balanced: the target is the rotation's pick
+and the rotation advances. -/
+theorem C04_unpinned_balanced (cfg : Cfg) (st : St) (m : Message) (br : Bytes) (t0 : Listener)
+    (hreq : isRequest m = true) (h0 : cfg.transports0 = some t0)
+    (hun : (getDialog cfg.cm m).1 = none ∨ ∃ d, (getDialog cfg.cm m).1 = some d ∧ pinGet st.pins d = none) :
+    (sendToBackend cfg st m br).2 =
+      (match (Side.RR.dispatch st.rr).2 with
+       | none => []
+       | some a => [.backend a ((insertSelf cfg (getDialog cfg.cm m).2 t0 br).bytes cfg.cm)]) ∧
+    (sendToBackend cfg st m br).1.rr = (Side.RR.dispatch st.rr).1 := by
+  obtain ⟨hf1, hf2⟩ := findBackendByDialog_request cfg st m hreq
+  have hnone : (findBackendByDialog cfg st m).1 = none := by
+    rcases hun with h | ⟨d, h, hp⟩
+    · rw [hf1, h]
+    · rw [hf1, h]; exact hp
+  have hb : sbBackend cfg st m = .rotation := by simp [sbBackend, hnone]
+  refine ⟨?_, ?_⟩
+  · rw [sendToBackend_out cfg st m br t0 h0, hb]
+    simp only [sbPick, sbMessage, hf2]
+    rfl
+  · rw [sendToBackend_rr cfg st m br t0 h0, hb]
+    rfl
+
+/-! ### the pin survives other traffic -/
+
+/-- `findBackendByDialog` keeps the pin of `d` unless the message is a terminating NOTIFY of `d`. -/
+theorem findBackendByDialog_keeps (cfg : Cfg) (st : St) (m : Message) (d : Bytes)
+    (hother : (getDialog cfg.cm m).1 = some d → terminates cfg m = false) :
+    pinGet (findBackendByDialog cfg st m).2.1 d = pinGet st.pins d := by
+  rw [findBackendByDialog_pins]
+  split
+  · rename_i d' hd'
+    by_cases ht : terminates cfg m = true
+    · have hne : d' ≠ d := by
+        intro e
+        subst e
+        rw [hother hd'] at ht
+        cases ht
+      simp only [ht, ↓reduceIte]
+      exact pinGet_pinDel_other _ _ _ hne
+    · simp [ht]
+  · rfl
+
+/-- Handing ANY message to a backend keeps `d` pinned to `a`, provided the message is not a
+terminating NOTIFY of `d` itself (`hother`) and the transaction key recorded for it is not the byte
+string `d` (`hkey`: a key is `method-branch`, a dialog identifier contains four blanks). -/
+theorem C04_pin_survives_other_traffic (cfg : Cfg) (st : St) (m : Message) (br d : Bytes) (b : BackendRef)
+    (t0 : Listener) (h0 : cfg.transports0 = some t0)
+    (hp : pinGet st.pins d = some b)
+    (hother : (getDialog cfg.cm m).1 = some d → terminates cfg m = false)
+    (hkey : (getClientTransaction cfg.cm (sbMessage cfg st m t0 br)).1 ≠ some d) :
+    pinGet (sendToBackend cfg st m br).1.pins d = some b := by
+  have hk := findBackendByDialog_keeps cfg st m d hother
+  rw [sendToBackend_pins cfg st m br t0 h0]
+  split
+  · rw [hk, hp]
+  · split
+    · rename_i k hkk
+      have hne : k ≠ d := fun e => hkey (by rw [hkk, e])
+      rw [pinGet_pinAdd_other _ _ _ _ _ hne, hk, hp]
+    · rw [hk, hp]
+
+/-- the special case named in the property: a message of another dialog, or of none -/
+theorem C04_pin_survives_other_dialog (cfg : Cfg) (st : St) (m : Message) (br d a : Bytes)
+    (t0 : Listener) (h0 : cfg.transports0 = some t0)
+    (hp : pinGet st.pins d = some (.member a))
+    (hother : (getDialog cfg.cm m).1 ≠ some d)
+    (hkey : (getClientTransaction cfg.cm (sbMessage cfg st m t0 br)).1 ≠ some d) :
+    pinGet (sendToBackend cfg st m br).1.pins d = some (.member a) :=
+  C04_pin_survives_other_traffic cfg st m br d _ t0 h0 hp (fun h => absurd h hother) hkey
+
+/-! ### "no matter how many unrelated requests have advanced the rotation in between" -/
+
+/-- a run of `sendToBackend` calls (each with its own branch) -/
+def runBackend (cfg : Cfg) : St → List (Message × Bytes) → St
+  | st, [] => st
+  | st, (m, br) :: rest => runBackend cfg (sendToBackend cfg st m br).1 rest
+
+/-- each message of the run leaves the pin of `d` alone (in the state it meets) -/
+def Unrelated (cfg : Cfg) (t0 : Listener) (d : Bytes) : St → List (Message × Bytes) → Prop
+  | _, [] => True
+  | st, (m, br) :: rest =>
+    ((getDialog cfg.cm m).1 = some d → terminates cfg m = false) ∧
+    (getClientTransaction cfg.cm (sbMessage cfg st m t0 br)).1 ≠ some d ∧
+    Unrelated cfg t0 d (sendToBackend cfg st m br).1 rest
+
+theorem runBackend_keeps (cfg : Cfg) (t0 : Listener) (h0 : cfg.transports0 = some t0) (d : Bytes) (b : BackendRef)
+    (st : St) (ms : List (Message × Bytes)) (hp : pinGet st.pins d = some b) (hu : Unrelated cfg t0 d st ms) :
+    pinGet (runBackend cfg st ms).pins d = some b := by
+  induction ms generalizing st with
+  | nil => exact hp
+  | cons x rest ih =>
+    obtain ⟨m, br⟩ := x
+    obtain ⟨h1, h2, h3⟩ := hu
+    exact ih _ (C04_pin_survives_other_traffic cfg st m br d b t0 h0 hp h1 h2) h3
+
+/-- After ANY number of unrelated requests (which advance the rotation as they please) the next
+request of the pinned dialog still goes to the pinned backend, and to it alone. -/
+theorem C04_sticky (cfg : Cfg) (t0 : Listener) (h0 : cfg.transports0 = some t0) (d a : Bytes)
+    (st : St) (ms : List (Message × Bytes)) (hp : pinGet st.pins d = some (.member a))
+    (hu : Unrelated cfg t0 d st ms)
+    (m m1 : Message) (br : Bytes) (hreq : isRequest m = true) (hd : getDialog cfg.cm m = (some d, m1)) :
+    (sendToBackend cfg (runBackend cfg st ms) m br).2 = [.backend a ((insertSelf cfg m1 t0 br).bytes cfg.cm)] :=
+  (C04_sticky_step cfg _ m m1 br d a t0 hd (runBackend_keeps cfg t0 h0 d _ st ms hp hu) hreq h0).1
+
+/-! ### non-vacuity on the sample configuration (two backends, `dlg` pinned to the first) -/
+
+open Lemmas.Sample in
+/-- `bye` belongs to the pinned dialog; the rotation alone would have picked `b2`. -/
+example : isRequest bye = true ∧ (getDialog cfg.cm bye).1 = some dlg ∧ dlg ≠ [] ∧
+    pinGet st.pins dlg = some (.member b1) ∧ cfg.transports0 = some lsn ∧
+    (Side.RR.dispatch st.rr).2 = some b2 := by decide +kernel
+open Lemmas.Sample in
+/-- `invite` has no dialog (no To tag): load-balanced. -/
+example : isRequest invite = true ∧ (getDialog cfg.cm invite).1 = none := by decide +kernel
+open Lemmas.Sample in
+/-- two unrelated requests (another dialog; no dialog) satisfy `Unrelated` and do advance the rotation -/
+example : Unrelated cfg lsn dlg st [(bye2, str "z9hG4bKx1"), (invite, str "z9hG4bKx2"), (static, str "z9hG4bKx3")] ∧
+    (runBackend cfg st [(bye2, str "z9hG4bKx1"), (invite, str "z9hG4bKx2"), (static, str "z9hG4bKx3")]).rr.index
+      ≠ st.rr.index := by
+  refine ⟨⟨?_, ?_, ?_, ?_, ?_, ?_, trivial⟩, ?_⟩ <;> decide +kernel
+open Lemmas.Sample in
+/-- the answer that creates a pin: a 200 to INVITE from backend 10.0.0.5:5060 -/
+example : isResponse resp = true ∧
+    ({ st with pins := [] } : St).backends.contains (joinHostPort (str "10.0.0.5") 5060) = true ∧
+    (getMethod cfg.cm resp).map (fun p => (p.1, (getDialog cfg.cm p.2).1)) = some (str "INVITE", some dlg) := by
+  decide +kernel
+
 end Props.C04
